@@ -91,7 +91,7 @@ def normalise_ext(src, dst):
     return n
 
 
-_verdict = re.compile(r'^<<"VERDICT", (-?\d+), "(C\d+)", "([^"]*)", (.*)>>\s*$')
+_verdict = re.compile(r'^"VERDICT <<(-?\d+), \\"(C\d+)\\", \\"([^"\\]*)\\", (.*)>>"\s*$')
 _reject = re.compile(r'^<<"REJECT", (-?\d+), (\d+), "([^"]*)", (.*)>>\s*$')
 
 
@@ -267,7 +267,7 @@ def report_verdicts(ctx, verdicts, props, bpath, c, engine, ext_path=None):
 def classify_detail(kind, detail):
     """A stable, schedule-independent classification of a verdict for known-findings matching: the
     message types involved, not request numbers or tags."""
-    types = sorted(set(re.findall(r'"([TR][a-z]+)"', detail)))
+    types = sorted(set(re.findall(r'([TR][a-z]+)\\?"', detail)))
     return ",".join(types)
 
 
